@@ -135,6 +135,12 @@ def stepX (s : DState) (line : String) : DState × Option String :=
     match unhex p, unhex c with
     | some p, some c => ({ s with w := { s.w with fs := fsWrite s.w.fs p c } }, none)
     | _, _ => bad s line
+  | ["cfgrel", n, "=", file, ext] =>
+    -- `Dir("")`: the empty directory option (snapshots next to the test file), as distinct from no `Dir` option
+    match n.toNat?, unhex file, unhex ext with
+    | some n, some f, some e =>
+      ({ s with w := { s.w with cfgs := setCfg s.w.cfgs n { filename := f, snapsDir := [], extension := e, update := none } } }, some "cfgrel ok")
+    | _, _, _ => bad s line
   | _ => step s line
 
 /-- `stepX` never changes the state on a `jsonfmt` line -/
